@@ -550,34 +550,37 @@ Section BFGS.
   (* for j in range(m-1, -1, -1):
          delta_b_b = sum([delta[l] * b_dot_b[l, j] for l in range(2*m+1)])
          alpha[j] = delta_b_b/b_dot_b[j, m+j];  delta[m+j] -= alpha[j] *)
-  Fixpoint V_loop1 (c : nat) (delta : nat -> F) (al : nat -> F) : (nat -> F) * (nat -> F) :=
+  (* [Bm] is the matrix b_dot_b (the model's [B], or the implementation's own matrix in the replay) *)
+  Fixpoint V_loop1 (Bm : nat -> nat -> F) (c : nat) (delta : nat -> F) (al : nat -> F)
+    : (nat -> F) * (nat -> F) :=
     match c with
     | O => (delta, al)
-    | S j => let dbb := sum_upto (2 * m + 1) (fun l => fmul (delta l) (B l j)) in
-             let a := fdiv dbb (B j (m + j)) in
-             V_loop1 j (upd delta (m + j) (fun x => fsub x a)) (upd al j (fun _ => a))
+    | S j => let dbb := sum_upto (2 * m + 1) (fun l => fmul (delta l) (Bm l j)) in
+             let a := fdiv dbb (Bm j (m + j)) in
+             V_loop1 Bm j (upd delta (m + j) (fun x => fsub x a)) (upd al j (fun _ => a))
     end.
   (* for j in range(m):
          delta_b_b = sum([delta[l]*b_dot_b[m+j, l] for l in range(2*m+1)])
          beta = delta_b_b/b_dot_b[j, m+j];  delta[j] += (alpha[j] - beta) *)
-  Fixpoint V_loop2 (r : nat) (al : nat -> F) (delta : nat -> F) : nat -> F :=
+  Fixpoint V_loop2 (Bm : nat -> nat -> F) (r : nat) (al : nat -> F) (delta : nat -> F) : nat -> F :=
     match r with
     | O => delta
     | S r' => let j := m - r in
-              let dbb := sum_upto (2 * m + 1) (fun l => fmul (delta l) (B (m + j) l)) in
-              let beta := fdiv dbb (B j (m + j)) in
-              V_loop2 r' al (upd delta j (fun x => fadd x (fsub (al j) beta)))
+              let dbb := sum_upto (2 * m + 1) (fun l => fmul (delta l) (Bm (m + j) l)) in
+              let beta := fdiv dbb (Bm j (m + j)) in
+              V_loop2 Bm r' al (upd delta j (fun x => fadd x (fsub (al j) beta)))
     end.
-  Definition vl_delta : nat -> F :=
+  Definition vl_delta_of (Bm : nat -> nat -> F) : nat -> F :=
     (* delta = np.zeros(2*m+1); delta[2*m] = -1 *)
     let delta := fun l => if Nat.eqb l (2 * m) then fopp f1 else f0 in
-    let '(delta, al) := V_loop1 m delta (fun _ => f0) in
+    let '(delta, al) := V_loop1 Bm m delta (fun _ => f0) in
     (* for i in range(2*m+1): delta[i] *= b_dot_b[m-1, 2*m-1]/b_dot_b[2*m-1, 2*m-1]
        For m = 0 both indices are -1, i.e. the last (= only) entry [0,0] of the 1x1 matrix; the
        truncated subtraction of nat yields exactly that index 0. *)
-    let fac := fdiv (B (m - 1) (2 * m - 1)) (B (2 * m - 1) (2 * m - 1)) in
+    let fac := fdiv (Bm (m - 1) (2 * m - 1)) (Bm (2 * m - 1) (2 * m - 1)) in
     let delta := fun l => fmul (delta l) fac in
-    V_loop2 m al delta.
+    V_loop2 Bm m al delta.
+  Definition vl_delta : nat -> F := vl_delta_of B.
   (* descent_direction = delta[0] * b[0]; for i in range(1, len(delta)): dd = dd + delta[i]*b[i] *)
   Fixpoint lincomb_from (delta : nat -> F) (n : nat) : vec :=
     match n with
@@ -587,24 +590,26 @@ Section BFGS.
   Definition vl_direction : vec := lincomb_from vl_delta (2 * m).
 End BFGS.
 
-(* IEEE replay of both directions for 1-pixel fields: history of positions / gradients since the
-   last reset (oldest first, the current point last), max_history_length.  The window is the last
-   min(k, max_history_length) difference pairs, k = number of earlier calls. *)
-Definition bfgs_case (xs gs : list float) (mh : nat) (wantL wantV : float) (want_delta : list float)
-  : bool :=
-  let k := length xs - 1 in
-  let m := Nat.min k mh in
-  let x := fun i => nth i xs PrimFloat.nan in
-  let gr := fun i => nth i gs PrimFloat.nan in
-  (* s[...] = x - self._lastx ; y[...] = gradient - self._lastgrad *)
-  let s := fun j (_ : nat) => PrimFloat.sub (x (k - m + j + 1)) (x (k - m + j)) in
-  let y := fun j (_ : nat) => PrimFloat.sub (gr (k - m + j + 1)) (gr (k - m + j)) in
-  let g := fun _ : nat => gr k in
-  let gnorm := PrimFloat.sqrt (PrimFloat.mul (gr k) (gr k)) in
-  let pL := lbfgs_direction 0%float PrimFloat.add PrimFloat.mul PrimFloat.sub PrimFloat.div
-                            PrimFloat.opp 1 m s y g 0 in
-  let pV := vl_direction 0%float 1%float PrimFloat.add PrimFloat.mul PrimFloat.sub PrimFloat.div
-                         PrimFloat.opp 1 m s y g gnorm 0 in
-  let dl := map (vl_delta 0%float 1%float PrimFloat.add PrimFloat.mul PrimFloat.sub PrimFloat.div
-                          PrimFloat.opp 1 m s y g gnorm) (seq 0 (2 * m + 1)) in
-  fsame pL wantL && fsame pV wantV && list_same fsame dl want_delta.
+(* IEEE replay of _InformationStore.delta from the implementation's own b_dot_b matrix (row-major
+   list of its (2m+1)^2 entries): bit-exact, any field dimension. *)
+Definition delta_case (m : nat) (bdb : list float) (want_delta : list float) : bool :=
+  let n := 2 * m + 1 in
+  let Bm := fun i j => nth (i * n + j) bdb PrimFloat.nan in
+  let dl := map (vl_delta_of 0%float 1%float PrimFloat.add PrimFloat.mul PrimFloat.sub PrimFloat.div
+                             PrimFloat.opp m Bm) (seq 0 n) in
+  list_same fsame dl want_delta.
+
+(* Both directions from a window of pairs in IEEE arithmetic with naive left-to-right dot products
+   (the implementation accumulates in extended precision, so this is compared with a tolerance, in
+   Python): window S, Y (oldest first), gradient g, all as lists of [dim] doubles. *)
+Definition bfgs_dirs (dim : nat) (S Y : list (list float)) (g : list float)
+  : list float * list float :=
+  let m := length S in
+  let s := fun j i => nth i (nth j S []) PrimFloat.nan in
+  let y := fun j i => nth i (nth j Y []) PrimFloat.nan in
+  let gv := fun i => nth i g PrimFloat.nan in
+  let gnorm := PrimFloat.sqrt (dot 0%float PrimFloat.add PrimFloat.mul dim gv gv) in
+  (map (lbfgs_direction 0%float PrimFloat.add PrimFloat.mul PrimFloat.sub PrimFloat.div
+                        PrimFloat.opp dim m s y gv) (seq 0 dim),
+   map (vl_direction 0%float 1%float PrimFloat.add PrimFloat.mul PrimFloat.sub PrimFloat.div
+                     PrimFloat.opp dim m s y gv gnorm) (seq 0 dim)).
